@@ -876,7 +876,7 @@ class CondWait(CondUnit):
             st.put(C, "$wrec", s, z3.Store(st.get(C, "$wrec", s), payload.self, 0))
             self.waited = H(st, st.snapshot())
 
-    def after_suspending_call(self, ip, contract, a, case, exc):
+    def after_suspending_call(self, ip, contract, a, case, exc, ret=None):
         if contract.qualname == "Event.wait":
             self.wait_case = case.name
 
